@@ -22,4 +22,8 @@ for f in $V/harness/*.c; do
   $CC $CF -c $f -o $O/h_$(basename $f .c).o &
 done
 wait
+# direct uses of the C allocator by library code become visible to the driver (no source change)
+for o in cJSON cJSON_Utils; do
+  objcopy --redefine-sym malloc=vd_libc_malloc --redefine-sym free=vd_libc_free --redefine-sym realloc=vd_libc_realloc $O/$o.o
+done
 $CC $CF $O/*.o -lm -lpthread -o ${VERIF_BIN:-$V/out/bin/vdrv-$FL}
